@@ -151,7 +151,8 @@ def ops_table():
         ("knot_insert[1]", lambda c: c.knot_insert([F(1)]), True), ("knot_insert[1,1,1,1]", lambda c: c.knot_insert([F(1)] * 4), True),
         ("knot_insert[9]", lambda c: c.knot_insert([F(9)]), True), ("knot_insert[3/2,1/2]", lambda c: c.knot_insert([F(3, 2), F(1, 2)]), True),
         ("knot_remove[1]", lambda c: c.knot_remove([F(1)]), True), ("knot_remove[5/7]", lambda c: c.knot_remove([F(5, 7)]), True),
-        ("knot_remove[1],None", lambda c: c.knot_remove([F(1)], None), True), ("knot_remove[0]", lambda c: c.knot_remove([F(0)]), True),
+        ("knot_remove[1],None", lambda c: c.knot_remove([F(1)], None), True),
+        ("knot_remove[1,1]", lambda c: c.knot_remove([F(1), F(1)]), True), ("knot_remove[2,1]", lambda c: c.knot_remove([F(2), F(1)]), True), ("knot_remove[0]", lambda c: c.knot_remove([F(0)]), True),
         ("degree_increase(1)", lambda c: c.degree_increase(1), True), ("degree_increase(0)", lambda c: c.degree_increase(0), True),
         ("degree_decrease(1)", lambda c: c.degree_decrease(1), True), ("degree_decrease(1,None)", lambda c: c.degree_decrease(1, None), True),
         ("degree=-1", lambda c: setattr(c, "degree", -1), True), ("degree+=2", lambda c: setattr(c, "degree", c.degree + 2), True),
@@ -175,6 +176,11 @@ STARTS = {
     "p0": ([F(0), F(1), F(3)], [F(2), F(-1)], None),
     "p2rat": ([F(0)] * 3 + [F(3)] * 3, [F(1), F(2), F(0)], [F(1), F(2), F(1)]),
 }
+# a curve with redundant knots: knot 1 stored twice (one copy redundant) and knot 2 redundant, so that a multi-node removal can be
+# possible for its first node and impossible for a later one
+_U0 = [F(0)] * 3 + [F(1)] + [F(3)] * 3
+_UR = [F(0)] * 3 + [F(1), F(1), F(2)] + [F(3)] * 3
+STARTS["p2red"] = (_UR, [sum(t * q for t, q in zip(row, [F(1), F(-2), F(4), F(0)])) for row in spec.refine_matrix(_U0, 2, _UR, 2)], None)
 
 
 def task_histories(start, depth, chunk, nchunks):
@@ -256,6 +262,10 @@ def tasks(tier, seed):
     depth = 2 if tier == "quick" else 3
     nch = 4 if tier == "quick" else 16
     for start in STARTS:
+        if start == "p2red" and tier == "quick":
+            for c in range(2):
+                ts.append((task_histories, (start, 2, c, 2)))
+            continue
         if start == "p2rat" and tier == "quick":
             ts.append((task_histories, (start, 1, 0, 1)))
             continue
